@@ -621,6 +621,26 @@ Section Codec.
     destruct (md_exception (sv_disk s)); [reflexivity|]. exfalso. apply Hr. apply Hiff. reflexivity.
   Qed.
 
+  (* OBSERVATION (forked savers, outside C03's quantifier): whatever the children save and in
+     whatever order, the parent's close leaves the overall start / end exactly as they were in the
+     metadata handed to the saver (absent, for Plugin.metadata) - Saver.close computes them from the
+     parent's in-memory chunk list, which is still empty when FileSaver._close collects the
+     per-chunk json files. *)
+  Theorem forked_overall_range_untouched cfg md0 jobs (s1 s2 : saver_) :
+    save_children blob encode bsize cfg (init_saver md0) jobs = Ok s1 -> close s1 false = Ok s2 ->
+    md_start (sv_disk s2) = md_start md0 /\ md_end (sv_disk s2) = md_end md0 /\
+    md_chunks (sv_disk s2) = map snd (sort_by_key (sv_meta_files s1)).
+  Proof.
+    intros Hs Hc.
+    assert (Hinv : forall jobs (s s' : saver_), save_children blob encode bsize cfg s jobs = Ok s' -> sv_md s' = sv_md s).
+    { clear. induction jobs as [|[i c] jobs IH]; intros s s' H; cbn [save_children] in H.
+      - inversion H. reflexivity.
+      - unfold save_in_child in H. destruct (sv_closed s); cbn [res_bind] in H; [discriminate|].
+        apply IH in H. exact H. }
+    apply Hinv in Hs. unfold close in Hc.
+    destruct (sv_closed s1); [discriminate|]. destruct (sv_final s1); [discriminate|].
+    inversion Hc; subst s2; clear Hc. cbn [sv_disk]. rewrite Hs. cbn. repeat split; reflexivity.
+  Qed.
 End Codec.
 
 Section Loader.
